@@ -7,6 +7,9 @@ require (
 	pgregory.net/rapid v1.3.0
 )
 
-require github.com/klauspost/cpuid/v2 v2.0.2 // indirect
+require (
+	github.com/klauspost/cpuid/v2 v2.0.2 // indirect
+	github.com/klauspost/reedsolomon v1.9.11 // indirect
+)
 
 replace github.com/akalin/gopar => /repo
